@@ -154,8 +154,10 @@ HARNESSES = [
 
 VERUS_UNITS = [
     VU("V-transfer", ["C03", "C05", "C07", "C08"], ["transfer"], args=["--rlimit", "300"], timeout=600),
-    VU("V-outbuf", ["C05", "C08"], ["OutputBuffer::from_slice_pos_and_max", "OutputBuffer::bytes_left", "OutputBuffer::write_byte"]),
-    VU("V-def-bits", ["C02", "C10", "C12"], ["OutputBufferOxide::put_bits", "OutputBufferOxide::pad_to_bytes"]),
+    VU("V-outbuf", ["C05", "C08"], ["OutputBuffer::from_slice_pos_and_max", "OutputBuffer::bytes_left", "OutputBuffer::write_byte", "OutputBuffer::set_position",
+                                    "OutputBuffer::write_slice", "InputWrapper::advance", "InputWrapper::bytes_left"]),
+    VU("V-def-bits", ["C02", "C10", "C12"], ["OutputBufferOxide::put_bits", "OutputBufferOxide::pad_to_bytes", "OutputBufferOxide::put_bits_no_flush", "OutputBufferOxide::write_bytes",
+                                             "OutputBufferOxide::save", "OutputBufferOxide::load", "OutputBufferOxide::is_byte_aligned"]),
     VU("V-pushdict", ["C05", "C13"], ["push_dict_out"]),
     VU("V-def-lz", ["C02", "C10"], ["LZOxide::write_code", "LZOxide::plant_flag", "LZOxide::consume_flag"]),
     VU("V-flushout", ["C02", "C14"], ["CallbackBuf::flush_output"]),
